@@ -64,6 +64,7 @@ inductive Sys where
   | openTrunc        -- open(target, O_CREAT|O_TRUNC)       (zero-length PUT)
   | openOld          -- open(target, O_WRONLY)              (partial PUT)
   | copyOld          -- copy of old content into the staged copy
+  | seekFail         -- lseek() on the staged copy failed
   | other            -- any other modifying call on the target or staged name
 deriving DecidableEq, Repr
 
@@ -75,6 +76,7 @@ deriving DecidableEq, Repr
 
 inductive Pc where
   | start
+  | start2          -- O_TMPFILE refused: mkostemp() + unlink() in the target directory
   | recv            -- O_TMPFILE open, receiving
   | linked          -- staged name exists, complete
   | needRename
@@ -85,6 +87,8 @@ inductive Pc where
   | byNameC         -- complete, closed: rename next
   | byNameF         -- failed: close then unlink
   | zTrunc
+  | zStaged         -- zero-length replacement staged as a new empty file
+  | zRen
   | pExcl           -- partial: target opened, stage a copy
   | pCopy
   | pPatch (j : Nat)
@@ -107,13 +111,18 @@ def init (c : Cfg) : PSt := { pc := .start, target := c.old }
 /-- append the next `n` bytes of `src` to the prefix `cur` -/
 def extend (src cur : Bytes) (n : Nat) : Bytes := cur ++ (src.drop cur.length).take n
 
+/-- what is left to do once the names are settled: close the O_TMPFILE descriptor, if still open -/
+def fin (s : PSt) : Pc := if s.anon.isNone then .done else .closing
+
 def stepEv (c : Cfg) (s : PSt) (ev : Ev) : Option PSt :=
   match s.pc, ev.sys with
   -- ---------------------------------------------------------------- start
   | .start, .openTmpfile =>
     if c.kind == .full then
-      if ev.ok then some { s with pc := .recv, anon := some [] } else some { s with pc := .done, status := 4 }
+      if ev.ok then some { s with pc := .recv, anon := some [] } else some { s with pc := .start2 }
     else none
+  | .start2, .openTmpfile =>
+    if ev.ok then some { s with pc := .recv, anon := some [] } else some { s with pc := .done, status := 4 }
   | .start, .openExcl =>
     if c.kind == .zero then
       if ev.ok then
@@ -148,12 +157,17 @@ def stepEv (c : Cfg) (s : PSt) (ev : Ev) : Option PSt :=
   | .needRename, .rename =>
     if ev.ok then some { s with pc := .closing, target := s.tmp, tmp := none, status := 2 }
     else some { s with pc := .cleanup, status := 4 }
-  | .cleanup, .unlinkTmp => some { s with pc := .closing, tmp := none, status := 4 }
+  | .cleanup, .unlinkTmp => some { s with pc := fin s, tmp := none, status := 4 }
+  -- the request body chunk (the O_TMPFILE descriptor) is released as soon as it has been copied
+  | .byNameW, .close => if s.anon.isSome then some { s with anon := none } else none
+  | .byNameC, .close => if s.anon.isSome then some { s with anon := none } else none
+  | .byNameF, .close => if s.anon.isSome then some { s with anon := none } else none
+  | .cleanup, .close => if s.anon.isSome then some { s with anon := none } else none
   | .closing, .close => some { s with pc := .done, anon := none }
   -- ---------------------------------------------------------------- full PUT, staged by name
   | .byName, .openTmpExcl =>
     if ev.ok then (if s.tmp.isNone then some { s with pc := .byNameW, tmp := some [] } else none)
-    else some { s with pc := .closing, status := 4 }
+    else some { s with pc := fin s, status := 4 }
   | .byNameW, .write =>
     match s.tmp with
     | none => none
@@ -169,13 +183,20 @@ def stepEv (c : Cfg) (s : PSt) (ev : Ev) : Option PSt :=
         if ev.ok then some { s with pc := .byNameC } else some { s with pc := .cleanup, status := 4 }
       else none
   | .byNameC, .rename =>
-    if ev.ok then some { s with pc := .closing, target := s.tmp, tmp := none, status := 2 }
+    if ev.ok then some { s with pc := fin s, target := s.tmp, tmp := none, status := 2 }
     else some { s with pc := .cleanup, status := 4 }
   | .byNameF, .closeTmp => some { s with pc := .cleanup }
   -- ---------------------------------------------------------------- zero-length PUT
   | .zTrunc, .openTrunc =>
     if ev.ok then some { s with pc := .closing, target := some [], status := 2 }
     else some { s with pc := .done, status := 4 }
+  | .zTrunc, .openTmpExcl =>          -- (repaired tree: replace by a new empty file instead of O_TRUNC)
+    if ev.ok then (if s.tmp.isNone then some { s with pc := .zStaged, tmp := some [] } else none)
+    else some { s with pc := .done, status := 4 }
+  | .zStaged, .closeTmp => some { s with pc := .zRen }
+  | .zRen, .rename =>
+    if ev.ok then some { s with pc := .done, target := s.tmp, tmp := none, status := 2 }
+    else some { s with pc := .pFail false true, status := 4 }
   -- ---------------------------------------------------------------- partial PUT (copy, modify, rename)
   | .pExcl, .openTmpExcl =>
     if ev.ok then
@@ -202,6 +223,7 @@ def stepEv (c : Cfg) (s : PSt) (ev : Ev) : Option PSt :=
         else none
       else some { s with pc := .pFail true true, status := 4 }
     | _, _ => none
+  | .pPatch _, .seekFail => some { s with pc := .pFail true true, status := 4 }
   | .pPatch j, .rename =>
     -- (the code renames before closing the descriptor)
     if j == c.body.length then
@@ -239,7 +261,7 @@ def parseSys : String → Option Sys
   | "renameNr" => some .renameNr | "rename" => some .rename | "unlinkTmp" => some .unlinkTmp
   | "close" => some .close | "openTmpExcl" => some .openTmpExcl | "closeTmp" => some .closeTmp
   | "openExcl" => some .openExcl | "openTrunc" => some .openTrunc | "openOld" => some .openOld
-  | "copyOld" => some .copyOld | "other" => some .other | _ => none
+  | "copyOld" => some .copyOld | "seekFail" => some .seekFail | "other" => some .other | _ => none
 
 def parseEv (s : String) : Option Ev :=
   let (name, n) := match s.splitOn ":" with
@@ -250,10 +272,10 @@ def parseEv (s : String) : Option Ev :=
   (parseSys name).map fun sy => { sys := sy, ok := !failed, n := n }
 
 def showPc : Pc → String
-  | .done => "done" | .start => "start" | .recv => "recv" | .linked => "linked"
+  | .done => "done" | .start => "start" | .start2 => "start2" | .recv => "recv" | .linked => "linked"
   | .needRename => "needRename" | .cleanup => "cleanup" | .closing => "closing"
   | .byName => "byName" | .byNameW => "byNameW" | .byNameC => "byNameC" | .byNameF => "byNameF"
-  | .zTrunc => "zTrunc" | .pExcl => "pExcl" | .pCopy => "pCopy" | .pPatch _ => "pPatch"
+  | .zTrunc => "zTrunc" | .zStaged => "zStaged" | .zRen => "zRen" | .pExcl => "pExcl" | .pCopy => "pCopy" | .pPatch _ => "pPatch"
   | .pClose => "pClose" | .pFail _ _ => "pFail"
 
 def showOpt (o : Option Bytes) : String :=
